@@ -3,11 +3,13 @@ package edi
 import (
 	"io"
 
+	"github.com/jf-tech/omniparser/idr"
 	zz "github.com/jf-tech/omniparser/zzverif"
 )
 
 // C05EdiTail: every input byte ends up in a returned segment, a skipped CR/LF-only token,
-// or an error — trailing unterminated data is never silently dropped.
+// or an error — trailing unterminated data is never silently dropped. Runs the real
+// bufio.Scanner, the go-corelib split function and NonValidatingReader on symbolic bytes.
 func C05EdiTail() {
 	L := zz.Param("L", 4)
 	in := zz.NondetBytes("in", L)
@@ -22,19 +24,14 @@ func C05EdiTail() {
 		seg, err := r.Read()
 		if err == io.EOF {
 			zz.Cover("eof")
-			// whatever was not returned as a segment must be CR/LF-only filler
-			for k := accounted; k < len(in); k++ {
-				// bytes after the last returned segment
-				_ = k
-			}
 			rest := in[accounted:]
 			onlyFiller := true
 			for _, b := range rest {
-				if b != '\n' && b != '~' {
+				if b != '\n' {
 					onlyFiller = false
 				}
 			}
-			zz.Assert(onlyFiller, "EOF with unconsumed non-filler input: trailing data silently dropped")
+			zz.Assert(onlyFiller, "EOF although non-filler input was never returned: trailing unterminated data silently dropped")
 			return
 		}
 		if err != nil {
@@ -42,6 +39,237 @@ func C05EdiTail() {
 			return
 		}
 		zz.Cover("segment")
+		// the scanner hands out consecutive slices of the input; CR/LF-only tokens are skipped
+		for accounted < len(in) && in[accounted] == '\n' && len(seg.Raw) > 0 && seg.Raw[0] != '\n' {
+			accounted++
+		}
 		accounted += len(seg.Raw)
 	}
+	zz.Fail("no terminal result within L+2 reads")
+}
+
+// ---- hierarchy matching through the real EDI reader ----
+
+type zzSegSpecOut struct {
+	targets [][]int
+	term    string
+}
+
+func zzSeg(name string, kids ...*SegDecl) *SegDecl {
+	d := &SegDecl{Name: name, Children: kids}
+	zzSegMinMax(d)
+	return d
+}
+
+func zzSegGrp(name string, kids ...*SegDecl) *SegDecl {
+	d := &SegDecl{Name: name, Type: zzStrPtr(segTypeGroup), Children: kids}
+	zzSegMinMax(d)
+	return d
+}
+
+func zzNondetPickIntPtr(name string, cands []*int) *int {
+	return cands[zz.PickIndex(name, len(cands))]
+}
+
+func zzSegMinMax(d *SegDecl) {
+	// absent min/max default to 1/1; present: min 0..2, max 1..3 or -1 (unbounded).
+	// Presence is a symbolic pointer selection, so nothing forks here.
+	mn := zz.NondetInt(d.Name+".min", 0, 2)
+	m := zz.NondetInt(d.Name+".max", 1, 4)
+	mx := zz.IteInt(m == 4, -1, m)
+	d.Min = zzNondetPickIntPtr(d.Name+".minset", []*int{nil, &mn})
+	d.Max = zzNondetPickIntPtr(d.Name+".maxset", []*int{nil, &mx})
+}
+
+func zzSegShape(k int) ([]*SegDecl, []*SegDecl) {
+	switch k {
+	case 0:
+		a := zzSeg("a")
+		return []*SegDecl{a}, []*SegDecl{a}
+	case 1:
+		a, b := zzSeg("a"), zzSeg("b")
+		return []*SegDecl{a, b}, []*SegDecl{a, b}
+	case 2:
+		b := zzSeg("b")
+		a := zzSeg("a", b)
+		return []*SegDecl{a}, []*SegDecl{a, b}
+	case 3:
+		a, b := zzSeg("a"), zzSeg("b")
+		g := zzSegGrp("G", a, b)
+		return []*SegDecl{g}, []*SegDecl{g, a, b}
+	case 4:
+		a, b, c := zzSeg("a"), zzSeg("b"), zzSeg("c")
+		g := zzSegGrp("G", a, b)
+		return []*SegDecl{g, c}, []*SegDecl{g, a, b, c}
+	case 5:
+		a, b := zzSeg("a"), zzSeg("b")
+		h := zzSegGrp("H", a)
+		g := zzSegGrp("G", h, b)
+		return []*SegDecl{g}, []*SegDecl{g, h, a, b}
+	case 6:
+		a, b, c := zzSeg("a"), zzSeg("b"), zzSeg("c")
+		g := zzSegGrp("G", b, c)
+		return []*SegDecl{a, g}, []*SegDecl{a, g, b, c}
+	default:
+		c := zzSeg("c")
+		b := zzSeg("b", c)
+		a := zzSeg("a", b)
+		return []*SegDecl{a}, []*SegDecl{a, b, c}
+	}
+}
+
+const zzNumSegShapes = 8
+
+type zzSegSpec struct {
+	units []byte
+	pos   int
+	out   zzSegSpecOut
+	cur   []int
+	inTgt bool
+}
+
+func zzSegFirstSolid(d *SegDecl) *SegDecl {
+	for d.isGroup() && len(d.Children) > 0 {
+		d = d.Children[0]
+	}
+	if d.isGroup() {
+		return nil
+	}
+	return d
+}
+
+func (s *zzSegSpec) list(decls []*SegDecl) string {
+	for _, d := range decls {
+		cnt := 0
+		for cnt < d.maxOccurs() {
+			fs := zzSegFirstSolid(d)
+			if fs == nil || s.pos >= len(s.units) || s.units[s.pos] != fs.Name[0] {
+				break
+			}
+			if d.IsTarget {
+				s.cur = nil
+				s.inTgt = true
+			}
+			if !d.isGroup() {
+				if s.inTgt {
+					s.cur = append(s.cur, s.pos)
+				}
+				s.pos++
+			}
+			if e := s.list(d.Children); e != "" {
+				return e
+			}
+			if d.IsTarget {
+				s.out.targets = append(s.out.targets, s.cur)
+				s.inTgt = false
+			}
+			cnt++
+		}
+		if cnt < d.minOccurs() {
+			return "min:" + d.Name
+		}
+	}
+	return ""
+}
+
+func zzSegLeaves(n *idr.Node, acc []int) []int {
+	if n.Type == idr.TextNode {
+		return append(acc, int(n.Data[0]-'0'))
+	}
+	for c := n.FirstChild; c != nil; c = c.NextSibling {
+		zz.Assert(c.Parent == n, "delivered tree: child's parent link")
+		acc = zzSegLeaves(c, acc)
+	}
+	return acc
+}
+
+// C05EdiHier: the real ediReader (scanner, tokenizer, matcher) on every sequence of ≤ L
+// one-letter segments "x*<index>~" against the reference greedy matcher.
+func C05EdiHier() {
+	L := zz.Param("L", 3)
+	shape := zz.NondetChoice("shape", zzNumSegShapes)
+	if s := zz.Param("shape", -1); s >= 0 {
+		zz.Assume(shape == s)
+	}
+	top, all := zzSegShape(shape)
+	tgt := zz.NondetChoice("target", len(all))
+	all[tgt].IsTarget = true
+	for _, d := range all {
+		if !d.isGroup() {
+			d.Elems = []Elem{{Name: "i", Index: 1}}
+		}
+	}
+	decl := &FileDecl{SegDelim: "~", ElemDelim: "*", SegDecls: top}
+	zz.Assume((&ediValidateCtx{}).validateFileDecl(decl) == nil)
+
+	n := zz.NondetInt("len", 0, L)
+	units := make([]byte, 0, L)
+	input := make([]byte, 0, 4*L)
+	for i := 0; i < L; i++ {
+		if i < n {
+			// concrete 4-way choice per unit: the tokenizer is not the subject here
+			u := "abcz"[zz.NondetChoice("unit", 4)]
+			units = append(units, u)
+			input = append(input, u, '*', byte('0'+i), '~')
+		}
+	}
+	r, err := NewReader("in", &zzChunkReader{data: input, failAt: -1}, decl, "")
+	zz.Assume(err == nil)
+	s := &zzSegSpec{units: units}
+	e := s.list(top)
+	// The EDI reader lets the whole top-level declaration list repeat: once every
+	// declaration is complete, a segment that starts the first declaration again opens a new
+	// round (edi/format_test.go TestCreateFormatReader relies on it).
+	for k := 0; k < L && e == "" && len(top) > 0; k++ {
+		fs := zzSegFirstSolid(top[0])
+		if fs == nil || s.pos >= len(units) || units[s.pos] != fs.Name[0] {
+			break
+		}
+		e = s.list(top)
+	}
+	switch {
+	case e != "":
+		s.out.term = e
+	case s.pos < len(units):
+		s.out.term = "unexpected"
+	default:
+		s.out.term = "eof"
+	}
+	spec := s.out
+
+	delivered := 0
+	var last *idr.Node
+	callRelease := zz.NondetBool("callRelease")
+	for i := 0; i < L+2; i++ {
+		if last != nil && callRelease {
+			r.Release(last)
+		}
+		node, err := r.Read()
+		if err != nil {
+			zz.Assert(node == nil, "error comes with a nil node")
+			zz.Assert(delivered == len(spec.targets), "all targets of the reference were delivered before the terminal result")
+			if err == io.EOF {
+				zz.Cover("eof")
+				zz.Assert(spec.term == "eof", "EOF only where the reference ends cleanly")
+			} else {
+				zz.Cover("fatal")
+				zz.Assert(IsErrInvalidEDI(err), "structural errors are ErrInvalidEDI")
+				zz.Assert(!r.IsContinuableError(err), "structural errors are fatal")
+				zz.Assert(spec.term != "eof", "fatal error only where the reference fails")
+			}
+			return
+		}
+		zz.Cover("delivered")
+		zz.Assert(delivered < len(spec.targets), "no more targets than the reference delivers")
+		got := zzSegLeaves(node, nil)
+		want := spec.targets[delivered]
+		zz.Assert(len(got) == len(want), "target holds exactly the segments of the reference instance (count)")
+		for k := range got {
+			zz.Assert(got[k] == want[k], "target holds exactly the segments of the reference instance (order)")
+		}
+		zz.Assert(node.Data == all[tgt].Name, "delivered node is an instance of the target declaration")
+		delivered++
+		last = node
+	}
+	zz.Fail("no terminal result within L+2 reads")
 }
